@@ -204,7 +204,8 @@ def obs_vectors(desc, obs):
         for r in p["rows"]:
             v[idx[r["name"]]] = r["vout"]
             i[idx[r["name"]]] = r["iin"]
-        out.append({"phase": p["phase"], "v": [wire.num(x) for x in v], "i": [wire.num(x) for x in i]})
+        out.append({"phase": p["phase"], "v": [wire.num(x) for x in v], "i": [wire.num(x) for x in i],
+                    "rows": [[idx[r["name"]], wire.num(r["vin"]), wire.num(r["iout"])] for r in p["rows"]]})
     return out
 
 
